@@ -544,10 +544,11 @@ func c26Check(r *vlib.Run, g *c26Genesis, genesisDigest string, c c26Case) bool 
 			}
 			r.TransitionN(n)
 			clean := rep[len(rep)-1]
-			key := fmt.Sprintf("rejected-before=%s;then=%s", rejectedKinds, c26EventNames[s.ev])
+			key := "then=" + c26EventNames[s.ev]
+			_ = rejectedKinds
 			if clean.accepted != s.accepted {
 				r.Violation("fuzz.ImportBlock", "accept-reject-differs-from-clean-node", key,
-					fmt.Sprintf("%s: step %d (%s) %s on the node that saw the rejected block(s), but %s on a fresh node given only the accepted blocks", seqs, i+1, c26EventNames[s.ev], c26Outcome(s), c26Outcome(clean)), c)
+					fmt.Sprintf("%s: step %d (%s) %s on the node that saw the rejected block(s) [%s], but %s on a fresh node given only the accepted blocks", seqs, i+1, c26EventNames[s.ev], c26Outcome(s), rejectedKinds, c26Outcome(clean)), c)
 			} else if s.accepted && (clean.root != s.root || clean.headDigest != s.headDigest) {
 				r.Violation("fuzz.ImportBlock", "state-differs-from-clean-node", key,
 					fmt.Sprintf("%s: step %d (%s) %s / head state %s on the node that saw the rejected block(s); %s / %s on a fresh node given only the accepted blocks", seqs, i+1, c26EventNames[s.ev], c26Outcome(s), s.headDigest, c26Outcome(clean), clean.headDigest), c)
